@@ -25,6 +25,8 @@ def _base_queries():
     for (nl, nz) in ((64, 0), (66, 2), (58, 0)):
         qs.append(Q("client-make_pms_rsa-N%d-Z%d" % (nl, nz), "C03_client_pms.c", defs=["-DNL=%d" % nl, "-DNZ=%d" % nz], unwind=max(70, nl + 4), timeout=300, backend="cadical",
                     desc="make_pms_rsa: 00 02 PS 00 || premaster with the client's MAXIMUM version, master secret from the same 48 bytes, validator's key; stored modulus %d bytes with %d leading zeros" % (nl, nz)))
+    qs.append(Q("server-se_do_keyx", "C03_keyx.c", unwind=150, timeout=200,
+                desc="se_do_keyx (static ECDH policy): reports the X-coordinate length on every outcome, success only if the multiplication succeeded; any point length <= 133"))
     qs.append(Q("server-verify_CV_sig", "C03_server.c", units=["src/codec/ccopy.c"], defs=["-DPART=1"], unwind=70, timeout=300, backend="cadical",
                 desc="verify_CV_sig: accepted => validator's client key, transcript hash, right DigestInfo OID, verifier success; all key types / hash ids"))
     qs.append(Q("server-do_rsa_decrypt", "C03_server.c", units=["src/codec/ccopy.c"], defs=["-DPART=2"], unwind=70, timeout=300, backend="cadical",
